@@ -2,20 +2,26 @@
 import time
 
 from .. import common
-from . import merge
+from . import merge, routing
 
 
 def run(prop, tier, seed, replay):
     t0 = time.time()
     rep = common.Report(prop)
     m = merge.piece(rep, tier, seed)
+    try:
+        p = routing.pipeline(tier, seed)
+        v = routing.validate(prop, p, rep)
+        cov = routing.coverage(p, v, "published lists of every part of the compiled corpus compared by TLC with the sorted set of "
+                               "wire names (Lists events); Merge scan model-checked and replayed (Merge events)")
+    except routing.BuildFailure as b:
+        rep.violation("corpus-does-not-build", "a program without a shared name does not compile:\n" + b.out[-3000:], {"cargo.txt": b.out})
+        cov = {"states": 0, "transitions": 0, "traces_validated_against_impl": 0, "samples": []}
     rc = rep.finish()
-    cov = {
-        "states": m["states"], "transitions": m["transitions"],
-        "traces_validated_against_impl": m["traces"],
-        "samples": m["samples"],
-        "exhaustive": True,
-        "pieces": {"merge_scan": m["note"]},
-    }
+    cov["states"] += m["states"]
+    cov["transitions"] += m["transitions"]
+    cov["traces_validated_against_impl"] += m["traces"]
+    cov["samples"] = m["samples"][:2] + cov["samples"][:2]
+    cov["pieces"] = {"merge_scan": m["note"]}
     common.write_evidence(prop, tier, seed, cov, time.time() - t0, len(rep.violations))
     return rc
